@@ -577,4 +577,187 @@ Proof.
   intros a. apply C. intros x b H. discriminate H.
 Qed.
 End Search.
+
+(* --- the bound functions of the code, in closed form --- *)
+Section Weighted.
+(* marginal_map_eval / bb_ub: weighted join, literal weights multiplied in *)
+Variable Q : list var.
+Variable n : nat.
+Variable p : bdd.
+Hypothesis HF : free_bdd p.
+Hypothesis NDQ : NoDup Q.
+Hypothesis HQn : forall q, In q Q -> N.to_nat q < n.
+(* weights of the query variables in the unit interval, the others non-negative *)
+Hypothesis unitQ : forall q b, In q Q -> nn (wsel q b) /\ cle (wsel q b) one.
+Hypothesis nnO : forall v, In v (support p) -> ~ In v Q -> nn (wlo v) /\ nn (whi v).
+
+Definition Vw (a : asg) : T := mul (prodS a Q) (vfold Q a false p).
+Definition ubw (m : pm) (rest : list var) : T :=
+  mul (gub Jw m rest false p) (prodG (gm m) (var_range n)).
+
+Lemma ubw_leaf m a : Inv Q m [] -> agrees m a -> ubw m [] = Vw a.
+Proof.
+  intros I Ha. unfold ubw, Vw. rewrite (gub_leaf Jw Q m a I Ha).
+  rewrite (prod_split Q m [] a n NDQ HQn I Ha). cbn [prodS fold_right].
+  rewrite mul_one_r. apply mul_comm.
+Qed.
+
+Lemma ubw_upper m rest a : Inv Q m rest -> agrees m a -> cle (Vw a) (ubw m rest).
+Proof.
+  intros I Ha. unfold ubw, Vw.
+  rewrite (prod_split Q m rest a n NDQ HQn I Ha), mul_assoc.
+  rewrite (mul_comm (gub Jw m rest false p)). apply mul_mono.
+  - apply nn_prodG. intros x _. unfold gm. destruct (m x) as [b|] eqn:Em; [|exact nn_one].
+    apply unitQ. apply (inv_Q _ _ _ I). left. congruence.
+  - apply (gub_weighted_ub Q m rest a I Ha p false rest HF (inv_nodup _ _ _ I)); auto.
+    intros q Hq. apply unitQ. apply (inv_Q _ _ _ I). auto.
+Qed.
+
+(* marginal_map_eval: fold first, then the literals; bb_ub: literals first, then the fold *)
+Lemma ubw_post m rest : litprod m n (gub Jw m rest false p) = ubw m rest.
+Proof. apply litprod_eq. Qed.
+Lemma ubw_pre m rest : mul (litprod m n one) (gub Jw m rest false p) = ubw m rest.
+Proof. rewrite litprod_eq, mul_one_l'. apply mul_comm. Qed.
+
+(* any bound function that computes ubw (the two shapes above) *)
+Variable ub : pm -> list var -> T.
+Hypothesis ub_eq : forall m rest, ub m rest = ubw m rest.
+
+Lemma ub_leaf_w m a : Inv Q m [] -> agrees m a -> ub m [] = Vw a.
+Proof. rewrite ub_eq. apply ubw_leaf. Qed.
+Lemma ub_upper_w m rest a : Inv Q m rest -> agrees m a -> cle (Vw a) (ub m rest).
+Proof. rewrite ub_eq. apply ubw_upper. Qed.
+
+Theorem searchA_weighted m0 : (forall x, m0 x = all_true Q x) ->
+  let r := searchA ub (ub m0 []) m0 Q pm_empty in
+  fst r = Vw (asg_of (snd r)) /\ (forall x, snd r x <> None <-> In x Q) /\
+  forall a, pre (Vw a) (fst r).
+Proof.
+  intros Hm. apply (search_top Q Vw ub ub_leaf_w (searchA ub) m0); auto.
+  apply searchA_ok; auto using ub_leaf_w, ub_upper_w.
+Qed.
+
+Theorem searchB_weighted m0 : (forall x, m0 x = all_true Q x) ->
+  let r := searchB ub (ub m0 []) m0 Q pm_empty in
+  fst r = Vw (asg_of (snd r)) /\ (forall x, snd r x <> None <-> In x Q) /\
+  forall a, pre (Vw a) (fst r).
+Proof.
+  intros Hm. apply (search_top Q Vw ub ub_leaf_w (searchB ub) m0); auto.
+  apply searchB_ok; auto using ub_leaf_w, ub_upper_w.
+Qed.
+End Weighted.
+
+Section Plain.
+(* eu_ub: unweighted join, no literal weights *)
+Variable Q : list var.
+Variable p : bdd.
+Hypothesis NDQ : NoDup Q.
+Hypothesis nnO : forall v, In v (support p) -> ~ In v Q -> nn (wlo v) /\ nn (whi v).
+
+Definition Vp (a : asg) : T := vfold Q a false p.
+Definition ubp (m : pm) (rest : list var) : T := gub Jplain m rest false p.
+
+Lemma ubp_leaf m a : Inv Q m [] -> agrees m a -> ubp m [] = Vp a.
+Proof. intros I Ha. apply gub_leaf; auto. Qed.
+Lemma ubp_upper m rest a : Inv Q m rest -> agrees m a -> cle (Vp a) (ubp m rest).
+Proof. intros I Ha. apply gub_plain_ub; auto. Qed.
+
+Theorem searchA_plain m0 : (forall x, m0 x = all_true Q x) ->
+  let r := searchA ubp (ubp m0 []) m0 Q pm_empty in
+  fst r = Vp (asg_of (snd r)) /\ (forall x, snd r x <> None <-> In x Q) /\
+  forall a, pre (Vp a) (fst r).
+Proof.
+  intros Hm. apply (search_top Q Vp ubp ubp_leaf (searchA ubp) m0); auto.
+  apply searchA_ok; auto using ubp_leaf, ubp_upper.
+Qed.
+End Plain.
 End Abs.
+
+(* ===================================================================================== *)
+(* 4. the value of a completion is a semantic weighted count                               *)
+Section Sem.
+Context {T : Type}.
+Variables (add mul : T -> T -> T) (zero one : T).
+Hypothesis add_comm : forall a b, add a b = add b a.
+Hypothesis add_assoc : forall a b c, add (add a b) c = add a (add b c).
+Hypothesis mul_assoc : forall a b c, mul (mul a b) c = mul a (mul b c).
+Hypothesis mul_comm : forall a b, mul a b = mul b a.
+Hypothesis mul_one_r : forall a, mul a one = a.
+Hypothesis distr_l : forall a b c, mul a (add b c) = add (mul a b) (mul a c).
+Variable wlo whi : var -> T.
+Variable Q : list var.
+
+Notation vfoldQ := (vfold add mul zero one wlo whi Q).
+Notation wspec := (wmc_spec T add mul zero one wlo whi).
+
+Lemma distr_r' a b c : mul (add a b) c = add (mul a c) (mul b c).
+Proof. rewrite mul_comm, distr_l, (mul_comm c a), (mul_comm c b). reflexivity. Qed.
+
+(* a constant function: normalisation is only needed on the listed variables *)
+Lemma wmc_spec_const_on vars b : (forall v, In v vars -> add (wlo v) (whi v) = one) ->
+  forall x, wspec vars (fun _ => b) x = if b then one else zero.
+Proof.
+  induction vars as [|v vs IH]; intros Hn x; simpl; auto.
+  rewrite !IH by (intros; apply Hn; simpl; auto).
+  rewrite <- distr_r', Hn by (simpl; auto). rewrite mul_comm. apply mul_one_r.
+Qed.
+
+(* (a) normalised weights on the non-query variables: the value fold of a free diagram is the sum
+   over all assignments of the non-query variables (the query variables keep the values of a)
+   of the product of their literal weights, restricted to the models *)
+Theorem vfold_spec : forall p c others a,
+  free_bdd p -> NoDup others -> (forall x, In x Q -> ~ In x others) ->
+  (forall u, In u (support p) -> In u Q \/ In u others) ->
+  (forall v, In v others -> add (wlo v) (whi v) = one) ->
+  vfoldQ a c p = wspec others (fun y => xorb c (den p y)) a.
+Proof.
+  induction p as [| |c' v lo IHlo hi IHhi]; intros c others a F ND DISJ SUP NORM.
+  - unfold vfold. simpl. rewrite (wmc_spec_const_on others (xorb c true) NORM). destruct c; reflexivity.
+  - unfold vfold. simpl. rewrite (wmc_spec_const_on others (xorb c false) NORM). destruct c; reflexivity.
+  - simpl in F. destruct F as (Nlo & Nhi & Flo & Fhi).
+    assert (SUPlo : forall u, In u (support lo) -> In u Q \/ In u others).
+    { intros u Hu. apply SUP. simpl. right. apply in_or_app; auto. }
+    assert (SUPhi : forall u, In u (support hi) -> In u Q \/ In u others).
+    { intros u Hu. apply SUP. simpl. right. apply in_or_app; auto. }
+    unfold vfold in *. cbn [bdd_fold_c]. unfold vstep at 1.
+    destruct (mem_var v Q) eqn:Eq.
+    + apply mem_var_In in Eq. pose proof (DISJ v Eq) as Hnv.
+      destruct (a v) eqn:Eav.
+      * rewrite (IHhi (xorb c c') others a Fhi ND DISJ SUPhi NORM).
+        apply wmc_spec_local. intros y Hy. cbn [den]. rewrite (Hy v Hnv), Eav, xorb_assoc. reflexivity.
+      * rewrite (IHlo (xorb c c') others a Flo ND DISJ SUPlo NORM).
+        apply wmc_spec_local. intros y Hy. cbn [den]. rewrite (Hy v Hnv), Eav, xorb_assoc. reflexivity.
+    + apply mem_var_nIn in Eq.
+      assert (Hv : In v others) by (destruct (SUP v); simpl; auto; contradiction).
+      destruct (in_split _ _ Hv) as (l1 & l2 & ->).
+      assert (P : Permutation (l1 ++ v :: l2) (v :: l1 ++ l2)) by (symmetry; apply Permutation_middle).
+      assert (ND' : NoDup (v :: l1 ++ l2)) by (eapply Permutation_NoDup; eauto).
+      inversion ND' as [|? ? Hnv ND'']; subst.
+      assert (IN' : forall u, In u (l1 ++ l2) -> In u (l1 ++ v :: l2)).
+      { intros u Hu. apply (Permutation_in _ (Permutation_sym P)). simpl; auto. }
+      assert (DISJ' : forall x, In x Q -> ~ In x (l1 ++ l2)) by (intros x Hx H; apply (DISJ x Hx); auto).
+      assert (NORM' : forall u, In u (l1 ++ l2) -> add (wlo u) (whi u) = one) by (intros; apply NORM; auto).
+      assert (SUPlo' : forall u, In u (support lo) -> In u Q \/ In u (l1 ++ l2)).
+      { intros u Hu. destruct (SUPlo u Hu) as [|H]; auto. right.
+        apply (Permutation_in _ P) in H. destruct H as [<-|]; [contradiction|auto]. }
+      assert (SUPhi' : forall u, In u (support hi) -> In u Q \/ In u (l1 ++ l2)).
+      { intros u Hu. destruct (SUPhi u Hu) as [|H]; auto. right.
+        apply (Permutation_in _ P) in H. destruct H as [<-|]; [contradiction|auto]. }
+      rewrite (wmc_spec_perm T add mul zero one add_comm add_assoc mul_assoc mul_comm distr_l wlo whi _ _ P)
+        by (intros y y' H; rewrite (den_ext_fun _ y y' H); reflexivity).
+      cbn [Wmc.wmc_spec].
+      (* the value fold only reads a on the query variables *)
+      assert (VF : forall q b cc,
+                 bdd_fold_c (vstep add mul wlo whi Q (upd a v b)) zero one cc q =
+                 bdd_fold_c (vstep add mul wlo whi Q a) zero one cc q).
+      { clear - Eq. induction q as [| |c2 u l IHl h IHh]; intros b cc; try reflexivity.
+        cbn [bdd_fold_c]. rewrite IHl, IHh. unfold vstep.
+        destruct (mem_var u Q) eqn:Eu; auto. apply mem_var_In in Eu.
+        unfold upd. destruct (N.eqb_spec u v); [subst; contradiction|reflexivity]. }
+      rewrite <- (VF lo false (xorb c c')), <- (VF hi true (xorb c c')).
+      rewrite (IHlo (xorb c c') (l1 ++ l2) (upd a v false) Flo ND'' DISJ' SUPlo' NORM').
+      rewrite (IHhi (xorb c c') (l1 ++ l2) (upd a v true) Fhi ND'' DISJ' SUPhi' NORM').
+      f_equal; f_equal; apply wmc_spec_local; intros y Hy; cbn [den];
+        rewrite (Hy v Hnv), upd_same; rewrite ?xorb_assoc; reflexivity.
+Qed.
+End Sem.
